@@ -31,6 +31,7 @@ a.dbl {p:#} {q:#} x:p.11?int y:q.12?int = a.Dbl p q;
 a.useDbl n:# k:# d:(a.dbl n k) = a.UseDbl;
 a.mix {p:#} l:# x:p.13?int y:l.14?int = a.Mix p;
 a.useMix n:# d:(a.mix n) = a.UseMix;
+a.solo {m:#} x:m.11?int y:m.12?long = a.Solo m;
 a.tm {m:#} n:# xs:(a.inner n) = a.Tm m;
 a.out {m:#} a:int i:%(a.Inner m) = a.Out m;
 a.useOut k:# o:(a.out k) = a.UseOut;
@@ -79,7 +80,9 @@ var verifUnsafeCases = []verifLintCase{
 	{name: "remove-last-field", from: " z:long = a.Plain", to: " = a.Plain"},
 	{name: "remove-masked-field", from: " g:m.14?string", to: ""},
 	{name: "remove-function-argument", from: " k:m.15?int = a.Rec;", to: " = a.Rec;"},
-	{name: "remove-template-argument", from: "a.inner {m:#} x:m.11?int y:m.12?long = a.Inner m;", to: "a.inner x:int = a.Inner;"},
+	// (on a type nothing else refers to: removing a template argument of a referenced type leaves a schema that does not type-check,
+	// and the linter is only defined on schemas that do)
+	{name: "remove-template-argument", from: "a.solo {m:#} x:m.11?int y:m.12?long = a.Solo m;", to: "a.solo x:int = a.Solo;"},
 	{name: "change-field-type", from: "a.plain x:int", to: "a.plain x:long"},
 	{name: "change-last-field-type", from: " z:long = a.Plain", to: " z:int = a.Plain"},
 	{name: "change-masked-field-type", from: " f:m.13?int", to: " f:m.13?long"},
